@@ -75,7 +75,7 @@ SegOps ==
     \* ---- parse() texts (parser.py records debugs while the path is just the page title)
     p_plain   |-> <<>>,
     p_pre     |-> <<Em("debug", "pre", "parser/1308", "")>>,
-    p_b       |-> <<Em("debug", "b_unclosed", "parser/304", "line1-1")>>,
+    p_b       |-> <<Em("debug", "b_unclosed", "parser/304", "lineN-N")>>,
     p_heading |-> <<Em("debug", "heading", "parser20241218-2219", "")>>,
     p_section |-> <<Em("debug", "section", "parser/1299", "")>>,
     p_t1a     |-> <<Save("T:t1|a")>>,
